@@ -125,7 +125,7 @@ def hyp_case(draw, big):
     if draw(st.integers(0, 15)) == 0:
         seq = draw(gens.long_charged(129, 320))
         N = len(seq)
-        w = draw(st.one_of(st.integers(128, N), st.sampled_from([N, N - 1, 128, 129, 200 if N >= 200 else N])))
+        w = draw(st.one_of(st.integers(min(128, N), N), st.sampled_from([N, N - 1, min(128, N), min(129, N), 200 if N >= 200 else N])))
         kind = draw(st.sampled_from(["NCPR", "FCR", "sigma", "hydropathy", "comp-default"]))
         return {"seq": seq, "w": w, "kind": kind, "delta": False}
     seq = draw(gens.sequences(max_len=200 if draw(st.integers(0, 9)) == 0 and big else 60))
